@@ -245,12 +245,18 @@ static int xf_token_held(coap_session_t *session, coap_bin_const_t tok) {
   uint64_t base = STATE_TOKEN_BASE(coap_decode_var_bytes8(tok.s, tok.length));
   coap_lg_crcv_t *c;
   coap_lg_xmit_t *x;
+  /* Only state of a transfer the APPLICATION started counts.  A message that arrives after its transfer was concluded (the
+   * open finding c09-late-message-raw-token) can make libcoap set up a fresh lg_crcv from the request it answered, whose
+   * "application token" is then itself a wire token: what happens under that entry is the late-message class, not a live
+   * transfer of the application (thorough seed 11: `xfer get 7168 82 - 6 1152 1 1 ddd~1r1.1~1q5x~1q0z300`). */
   LL_FOREACH(session->lg_crcv, c) {
-    if (base == STATE_TOKEN_BASE(c->state_token) || (c->app_token && coap_binary_equal(&tok, c->app_token))) return 1;
+    if (!c->app_token || strncmp(tokclass(c->app_token->s, c->app_token->length), "app", 3)) continue;
+    if (base == STATE_TOKEN_BASE(c->state_token) || coap_binary_equal(&tok, c->app_token)) return 1;
   }
   LL_FOREACH(session->lg_xmit, x) {
     if (!COAP_PDU_IS_REQUEST(&x->pdu)) continue;
-    if (base == STATE_TOKEN_BASE(x->b.b1.state_token) || (x->b.b1.app_token && coap_binary_equal(&tok, x->b.b1.app_token))) return 1;
+    if (!x->b.b1.app_token || strncmp(tokclass(x->b.b1.app_token->s, x->b.b1.app_token->length), "app", 3)) continue;
+    if (base == STATE_TOKEN_BASE(x->b.b1.state_token) || coap_binary_equal(&tok, x->b.b1.app_token)) return 1;
   }
   return 0;
 }
